@@ -86,13 +86,16 @@ type Config struct {
 	// DevSites, when non-nil, restricts map deviations to these sites (others always identity).
 	DevSites map[int]bool
 	// FreeSites get unbounded deviations (do not consume MaxDev).
-	FreeSites map[int]bool
-	NumCPU    int       // value returned by NumCPU() while attached (0 = real)
-	Deadline  time.Time // zero = none; when reached the search stops with Exhaustive=false
-	MaxExecs  int64     // 0 = none
-	Shard     int
-	NShards   int // 0/1 = no sharding; shards split the children of the root execution
-	Trace     bool
+	FreeSites  map[int]bool
+	NumCPU     int       // value returned by NumCPU() while attached (0 = real)
+	Deadline   time.Time // zero = none; when reached the search stops with Exhaustive=false
+	MaxExecs   int64     // 0 = none
+	Shard      int
+	NShards    int // 0/1 = no sharding; shards split the executions at depth ShardDepth+1 of the search tree
+	ShardDepth int // default 1: every shard runs the root and its children, grandchildren are dealt round-robin
+	Trace      bool
+	// NoStateCache disables happens-before state caching (see stateKey).
+	NoStateCache bool
 	// Check is called after each execution with its observation; a non-empty return is a violation.
 	Check func(x *Exec, obs string) string
 }
@@ -121,6 +124,8 @@ type Result struct {
 	DevUsed     int
 	FaultUsed   int
 	HarnessErr  string
+	Pruned      int64 // executions cut short because their state had been explored (HB state cache)
+	States      int64 // distinct happens-before states seen at scheduling points
 }
 
 // ---------------------------------------------------------------------------------------------
@@ -134,35 +139,42 @@ type point struct {
 }
 
 type thread struct {
-	id   int
-	gate chan struct{}
-	op   Op
-	obj  Object
-	arg  int
-	done bool
-	name string
+	id     int
+	gate   chan struct{}
+	op     Op
+	obj    Object
+	arg    int
+	done   bool
+	name   string
+	cname  [2]uint64 // canonical name: hash(parent cname, spawn index)
+	hash   [2]uint64 // Merkle hash of this thread's events (each includes the object's previous hash)
+	spawns uint64
 }
 
 type abortExec struct{}
 
 // Exec is one controlled execution.
 type Exec struct {
-	cfg      *Config
-	prefix   []int
-	choices  []int
-	points   []point
-	threads  []*thread
-	running  int
-	trace    []string
-	objIDs   map[Object]int
-	steps    int
-	fail     []string
-	aborting bool
-	teardown bool
-	exited   chan struct{}
-	deadlock bool
-	leaked   int
-	mapSites map[int]int64
+	cfg                 *Config
+	prefix              []int
+	choices             []int
+	points              []point
+	threads             []*thread
+	running             int
+	trace               []string
+	objIDs              map[Object]int
+	steps               int
+	fail                []string
+	aborting            bool
+	teardown            bool
+	exited              chan struct{}
+	deadlock            bool
+	leaked              int
+	mapSites            map[int]int64
+	objHash             map[Object][2]uint64
+	cache               *stateCache
+	costP, costD, costF int
+	pruned              bool
 	// free-form monitors for shims
 	ExecRunning    int
 	ExecRunningMax int
@@ -227,7 +239,97 @@ func (x *Exec) choose(kind Kind, n int, free bool, site int) int {
 	}
 	x.choices = append(x.choices, c)
 	x.points = append(x.points, point{kind, n, free, site})
+	if c != 0 {
+		switch kind {
+		case KindSched:
+			if !free {
+				x.costP++
+			}
+		case KindMap:
+			if !x.cfg.FreeSites[site] {
+				x.costD++
+			}
+		case KindFault:
+			x.costF++
+		}
+	}
+	if kind != KindSched {
+		t := x.threads[x.running]
+		t.hash = mix2(t.hash, uint64(kind)+1, uint64(site)<<20|uint64(c))
+	}
 	return c
+}
+
+func mix(h, a uint64) uint64 {
+	h ^= a + 0x9e3779b97f4a7c15 + (h << 6) + (h >> 2)
+	h *= 0xff51afd7ed558ccd
+	h ^= h >> 33
+	return h
+}
+
+func mix2(h [2]uint64, a, b uint64) [2]uint64 {
+	return [2]uint64{mix(mix(h[0], a), b), mix(mix(h[1]^0xc2b2ae3d27d4eb4f, b), a)}
+}
+
+// event folds one performed operation into the happens-before hashes: the event's hash covers the
+// thread's previous event and the previous event on the same object, so the set of per-thread
+// hashes identifies the partial order (Mazurkiewicz trace) executed so far. Under data-race
+// freedom two prefixes with the same partial order lead to the same state.
+func (x *Exec) event(t *thread, op Op, obj Object, arg int) {
+	h := mix2(t.hash, uint64(op)+17, uint64(arg)+1)
+	if obj != nil {
+		o := x.objHash[obj]
+		h = mix2(h, o[0], o[1])
+		x.objHash[obj] = h
+	}
+	t.hash = h
+}
+
+type cost struct{ p, d, f int }
+
+type stateCache struct {
+	seen map[[2]uint64][]cost
+}
+
+// stateKey combines the hashes of all threads (order independent) with the identity of the
+// running thread (switching away from it is what costs a preemption).
+func (x *Exec) stateKey(running *thread) [2]uint64 {
+	var k [2]uint64
+	for _, t := range x.threads {
+		d := uint64(0)
+		if t.done {
+			d = 1
+		}
+		h := mix2(t.cname, t.hash[0]+d, t.hash[1])
+		k[0] += h[0]
+		k[1] += h[1]
+	}
+	return mix2(k, running.cname[0], running.cname[1])
+}
+
+// visit returns true when the current state was already explored with at most the current cost.
+func (x *Exec) visit(t *thread) bool {
+	c := x.cache
+	if c == nil || len(x.choices) < len(x.prefix) {
+		return false
+	}
+	k := x.stateKey(t)
+	cur := cost{x.costP, x.costD, x.costF}
+	list := c.seen[k]
+	for _, o := range list {
+		if o.p <= cur.p && o.d <= cur.d && o.f <= cur.f {
+			return true
+		}
+	}
+	// drop dominated entries
+	out := list[:0]
+	for _, o := range list {
+		if !(cur.p <= o.p && cur.d <= o.d && cur.f <= o.f) {
+			out = append(out, o)
+		}
+	}
+	c.seen[k] = append(out, cur)
+	return false
 }
 
 // Choose is an environment choice point (KindFault): returns 0..n-1, 0 being the default answer.
@@ -290,6 +392,7 @@ func (x *Exec) Point(op Op, obj Object, arg int) {
 	if !x.dispatch(t) {
 		x.abort()
 	}
+	x.event(t, op, obj, arg)
 	if x.cfg.Trace {
 		x.trace = append(x.trace, fmt.Sprintf("t%d %s %s %d", t.id, op, x.objName(obj), arg))
 	}
@@ -320,6 +423,13 @@ func (x *Exec) dispatch(t *thread) bool {
 	}
 	idx := 0
 	if len(en) > 1 {
+		if x.visit(t) {
+			x.pruned = true
+			if t.done {
+				return false
+			}
+			x.abort()
+		}
 		free := t.done || en[0] != t.id
 		idx = x.choose(KindSched, len(en), free, 0)
 	}
@@ -352,7 +462,11 @@ func (x *Exec) Go(name string, f func()) {
 	if x.aborting {
 		return
 	}
+	parent := x.threads[x.running]
 	t := &thread{id: len(x.threads), gate: make(chan struct{}), op: OpStart, name: name}
+	t.cname = mix2(parent.cname, parent.spawns+1, 0x5bd1e995)
+	t.hash = t.cname
+	parent.spawns++
 	x.threads = append(x.threads, t)
 	go func() {
 		<-t.gate
@@ -398,9 +512,9 @@ func (x *Exec) exitThread(t *thread) {
 }
 
 // run executes body once under the given prefix.
-func run(cfg *Config, prefix []int, body func(x *Exec) string) (x *Exec, obs string) {
-	x = &Exec{cfg: cfg, prefix: prefix, objIDs: map[Object]int{}, mapSites: map[int]int64{}, exited: make(chan struct{})}
-	main := &thread{id: 0, gate: make(chan struct{}), name: "main"}
+func run(cfg *Config, prefix []int, body func(x *Exec) string, cache *stateCache) (x *Exec, obs string) {
+	x = &Exec{cfg: cfg, prefix: prefix, objIDs: map[Object]int{}, mapSites: map[int]int64{}, exited: make(chan struct{}), objHash: map[Object][2]uint64{}, cache: cache}
+	main := &thread{id: 0, gate: make(chan struct{}), name: "main", cname: [2]uint64{1, 2}, hash: [2]uint64{1, 2}}
 	x.threads = []*thread{main}
 	cur = x
 	defer func() { cur = nil }()
@@ -427,7 +541,7 @@ func run(cfg *Config, prefix []int, body func(x *Exec) string) (x *Exec, obs str
 		x.Point(OpJoinAll, nil, 0)
 		main.done = true
 	}()
-	if len(x.choices) < len(prefix) && len(x.fail) == 0 {
+	if len(x.choices) < len(prefix) && len(x.fail) == 0 && !x.pruned {
 		panic(fmt.Sprintf("vsched: replay divergence: execution ended after %d choices, prefix has %d", len(x.choices), len(prefix)))
 	}
 	return x, obs
@@ -449,10 +563,12 @@ func (x *Exec) Trace() []string { return x.trace }
 // search
 
 type explorer struct {
-	cfg  *Config
-	body func(x *Exec) string
-	res  *Result
-	stop bool
+	cfg   *Config
+	body  func(x *Exec) string
+	res   *Result
+	stop  bool
+	cache *stateCache
+	child int
 }
 
 func (e *explorer) cost(x *Exec, upto int) (p, d, f int) {
@@ -478,10 +594,14 @@ func (e *explorer) cost(x *Exec, upto int) (p, d, f int) {
 }
 
 func (e *explorer) one(prefix []int) *Exec {
-	x, obs := run(e.cfg, prefix, e.body)
+	x, obs := run(e.cfg, prefix, e.body, e.cache)
 	r := e.res
 	r.Execs++
 	r.Steps += int64(x.steps)
+	if x.pruned {
+		r.Pruned++
+		return x
+	}
 	if len(x.threads) > r.MaxThreads {
 		r.MaxThreads = len(x.threads)
 	}
@@ -542,7 +662,6 @@ func (e *explorer) explore(prefix []int, depth int) {
 		e.res.Cap = "20 violations"
 		return
 	}
-	child := 0
 	for i := len(prefix); i < len(x.choices); i++ {
 		pt := x.points[i]
 		if pt.n <= 1 {
@@ -572,9 +691,11 @@ func (e *explorer) explore(prefix []int, depth int) {
 			}
 		}
 		for alt := 1; alt < pt.n; alt++ {
-			child++
-			if depth == 0 && e.cfg.NShards > 1 && child%e.cfg.NShards != e.cfg.Shard {
-				continue
+			if depth == e.cfg.ShardDepth && e.cfg.NShards > 1 {
+				e.child++
+				if e.child%e.cfg.NShards != e.cfg.Shard {
+					continue
+				}
 			}
 			np := make([]int, i+1)
 			copy(np, x.choices[:i])
@@ -592,13 +713,19 @@ func Explore(cfg Config, body func(x *Exec) string) *Result {
 	if cfg.PermFull == 0 {
 		cfg.PermFull = 4
 	}
+	if cfg.ShardDepth == 0 {
+		cfg.ShardDepth = 1
+	}
 	res := &Result{Outcomes: map[string]int64{}, SchedSigs: map[string]bool{}, MapSites: map[int]int64{}, Exhaustive: true}
 	e := &explorer{cfg: &cfg, body: body, res: res}
+	if !cfg.NoStateCache {
+		e.cache = &stateCache{seen: map[[2]uint64][]cost{}}
+	}
 	// determinism precondition: the default execution replayed twice must observe the same
 	tc := cfg
 	tc.Trace = true
-	x1, o1 := run(&tc, nil, body)
-	x2, o2 := run(&tc, nil, body)
+	x1, o1 := run(&tc, nil, body, nil)
+	x2, o2 := run(&tc, nil, body, nil)
 	if o1 != o2 || strings.Join(x1.trace, "\n") != strings.Join(x2.trace, "\n") || fmt.Sprint(x1.choices) != fmt.Sprint(x2.choices) {
 		res.HarnessErr = fmt.Sprintf("nondeterministic default execution:\nobs1=%q\nobs2=%q\ntrace1=%v\ntrace2=%v", o1, o2, x1.trace, x2.trace)
 		res.Exhaustive = false
@@ -608,11 +735,14 @@ func Explore(cfg Config, body func(x *Exec) string) *Result {
 	if e.stop {
 		res.Exhaustive = false
 	}
+	if e.cache != nil {
+		res.States = int64(len(e.cache.seen))
+	}
 	// re-run each violation 5x from its recorded choices
 	for i := range res.Violations {
 		v := &res.Violations[i]
 		for k := 0; k < 5; k++ {
-			xr, obs := run(&tc, v.Choices, body)
+			xr, obs := run(&tc, v.Choices, body, nil)
 			msg := strings.Join(xr.fail, "; ")
 			if msg == "" && cfg.Check != nil {
 				msg = cfg.Check(xr, obs)
@@ -633,7 +763,7 @@ func Replay(cfg Config, choices []int, body func(x *Exec) string) (*Exec, string
 		cfg.PermFull = 4
 	}
 	cfg.Trace = true
-	return run(&cfg, choices, body)
+	return run(&cfg, choices, body, nil)
 }
 
 // ---------------------------------------------------------------------------------------------
@@ -812,3 +942,12 @@ func GoStmt(f func()) {
 	}
 	go f()
 }
+
+type globalObject struct{ name string }
+
+func (g *globalObject) Enabled(op Op, arg int) bool { return true }
+
+// ProcTable is the pseudo object on which all exec.start / exec.finish operations conflict, so that
+// the happens-before state cache distinguishes their relative order (the "processes running at
+// once" monitor depends on it).
+var ProcTable Object = &globalObject{"proctable"}
